@@ -318,6 +318,31 @@ def check_match_api(repo, rep):
                            'such group" for every pattern with a named '
                            'group' % (f.attr, model.norm(a), why),
                            loc=mod.loc(c), construct=model.norm(c))
+    # findall / split return *groups* (not whole matches / plain pieces)
+    # as soon as the caller's pattern has a capturing group
+    for q, fi in mod.functions.items():
+        for c in model.calls_in(fi.node, shallow=True):
+            f = c.func
+            if isinstance(f, ast.Attribute) and f.attr == 'findall':
+                # a module-level constant pattern without groups is fine
+                d = repo.resolve(mod, f.value, model.scope_locals(fi))
+                tgt = repo.lookup(d) if d else None
+                if isinstance(tgt, tuple) and tgt[0] == 'const' and \
+                        isinstance(tgt[2], ast.Call) and tgt[2].args and \
+                        isinstance(tgt[2].args[0], ast.Constant):
+                    try:
+                        import re as _re
+                        if _re.compile(tgt[2].args[0].value).groups == 0:
+                            continue
+                    except Exception:
+                        pass
+                n += 1
+                rep.ob('R19b', '%s/findall' % fi.key, False,
+                       '`%s`: findall() yields the groups, not the matched '
+                       'text, for every pattern that has a capturing group '
+                       '(and tuples when it has several); walk finditer() '
+                       'and take group() instead' % model.norm(c),
+                       loc=mod.loc(c), construct=model.norm(c))
     rep.floor('re.Match API obligations', n, 3)
 
 
